@@ -585,6 +585,18 @@ def run_expect(case):
 
 
 def run_oracle(case, ans, spec):
+    # since the repair 71d0ff5 (C08) start-up refuses an epithelial cell type (global id 0) with fewer than two face types:
+    # polarisation writes face type 1.  Such a file is not admissible: the documented refusal is the expected answer.
+    if len(case["cells"][0]["faces"]) < 2 and first(case["cells"][0]["children"], "global_cell_id") == "0":
+        msg = str(ans[2]) if (ans[0] != "ran" and len(ans) > 2) else ""
+        if msg.startswith("x"):
+            try:
+                msg = bytes.fromhex(msg[1:]).decode("latin-1")
+            except ValueError:
+                pass
+        if ans[0] != "ran" and "intialization_exception" in str(ans[1]) and "two face types" in msg:
+            return None
+        return ("an epithelial cell type with a single face type was not refused at start-up", "%s" % (ans[:3],))
     if ans[0] != "ran":
         return ("the run of an admissible file ended with an exception", "%s: %s" % (ans[1], (ans[2] if len(ans) > 2 else "")[:200]))
     _, num, cells, extra = ans
